@@ -579,6 +579,16 @@ func init() {
 			e.Unknown("Muxer.videoMetaReady")
 		}
 		e.P("def videoMetaReadyShape : List String := %s", LeanStrList(vmrShape))
+		// … and the statements of its H.265 branch
+		var vmrHevc []string
+		if vmr != nil {
+			for _, st := range vmr.Body.List {
+				if is, ok := st.(*ast.IfStmt); ok && src1(is.Cond) == "vm.Codec == \"H265\"" {
+					vmrHevc = shapes(is.Body.List)
+				}
+			}
+		}
+		e.P("def videoMetaReadyHevc : List String := %s", LeanStrList(vmrHevc))
 
 		// ---------- service/flv: the client ends ----------
 		for _, sv := range []struct{ file, fn, recv, lean string }{
